@@ -25,6 +25,9 @@ class YowProfilesProtocolLayer(YowProtocolLayer):
             self._sendIq(entity, self.onGetStatusesResult, self.onGetStatusesError)
         elif isinstance(entity, SetStatusIqProtocolEntity):
             self._sendIq(entity, self.onSetStatusResult, self.onSetStatusError)
+        elif isinstance(entity, UnregisterIqProtocolEntity):
+            # the account xmlns sits on the child of this request, so no xmlns based rule picks it up
+            self.entityToLower(entity)
 
 
     def recvIq(self, node):
